@@ -29,6 +29,7 @@ TRUSTED = [
     "dict / str / int primitives used between the counter read and write run no Python code (checked per run against the bytecode: stream atomicity_certificate)",
     "multiprocessing.managers.BaseManager: one server thread per client connection, each request = one call of the MemoryStorage method; arguments and results are pickled (str/int/None/list/tuple/dict round-trip unchanged)",
     "harness token tables: python str <-> integer token; python value <-> canonical flat integer list (dict keys sorted) - harness/vp/props/c13.py enc_val",
+    "schedule pressure: the harness sets sys.setswitchinterval(1e-6) while SharedMemoryStorage() forks its server (inherited by the server only), so that server threads switch at almost every eval-breaker check; semantics unchanged",
     "snapshot clause (objects returned by load_job / load_search are unaffected by later stores, and scribbling on them does not change the storage) is observed in Python; immutable Gallina values cannot express aliasing",
 ]
 ASSUMPTIONS = [
@@ -456,7 +457,9 @@ def check_history(case):
     m = model()
     mouts = [canon_out(x) for x in m.call(F_RUN, mdata)]
     backends = case.get("backends", ["memory", "shared"])
-    res = dict(ok=True, kind="oracle", clause="", sig=dict(case.get("sig", {})), nontrivial=False, desc=[])
+    # F25: a history that uses one of the names the pinned code keeps in the same dictionary as the user's search values
+    internal = any(o[0] in ("store_sv", "load_sv") and o[2] in ("job_id_counter", "data") for o in case["ops"])
+    res = dict(ok=True, kind="oracle", clause="", sig=dict(internal_search_key=internal), nontrivial=False, desc=[])
     results = {}
     for b in backends:
         if b == "memory":
@@ -666,7 +669,7 @@ def gen_random(count, maxlen, reserved=False):
                     ops.append(["scribble", rng.randrange(1000), [["load_job", j], ["load_search", j[0]], ["load_jobs", [j]]]])
             # job_status_get raises ValueError for a status outside the enum: only after statuses in range (always here)
             yield dict(ops=ops, audit="light", every=1 if n <= 25 else rng.choice([3, 7]), backends=["memory", "shared"],
-                       sig=dict(reserved=True) if reserved else {})
+                       )
     return gen
 
 
